@@ -102,6 +102,80 @@ uninterp spec fn global_table(namespaces: HashMap<FileOrLib, HashMap<String, Nam
 uninterp spec fn ns_table(namespaces: HashMap<FileOrLib, HashMap<String, Name>>, namespace_to_file: HashMap<NamespaceID, FileOrLib>,
                           file_to_namespace: HashMap<FileOrLib, NamespaceID>, namespace_id: usize, a: ParserAssignable) -> Option<usize>;
 
+
+// ---- C14: the resolver's output is the DESUGARED form of the parse tree ----------------------------
+// rel_e(pe, e): `e` has the shape of `pe` after desugaring - an arrow call `x -> f(args)` is the call
+// `f(x, args)`, a parenthesised expression is the expression itself; variable ids and spans are not
+// compared, statement lists inside if / case / function bodies are not related (leaf).
+spec fn binop_of(k: sylt_parser::ExpressionKind) -> Option<BinOp> {
+    match k {
+        sylt_parser::ExpressionKind::Add(..) => Some(BinOp::Add),
+        sylt_parser::ExpressionKind::Sub(..) => Some(BinOp::Sub),
+        sylt_parser::ExpressionKind::Mul(..) => Some(BinOp::Mul),
+        sylt_parser::ExpressionKind::Div(..) => Some(BinOp::Div),
+        sylt_parser::ExpressionKind::AssertEq(..) => Some(BinOp::AssertEq),
+        sylt_parser::ExpressionKind::And(..) => Some(BinOp::And),
+        sylt_parser::ExpressionKind::Or(..) => Some(BinOp::Or),
+        sylt_parser::ExpressionKind::Comparison(_, c, _) => Some(match c {
+            sylt_parser::ComparisonKind::Equals => BinOp::Equals,
+            sylt_parser::ComparisonKind::NotEquals => BinOp::NotEquals,
+            sylt_parser::ComparisonKind::Greater => BinOp::Greater,
+            sylt_parser::ComparisonKind::GreaterEqual => BinOp::GreaterEqual,
+            sylt_parser::ComparisonKind::Less => BinOp::Less,
+            sylt_parser::ComparisonKind::LessEqual => BinOp::LessEqual,
+        }),
+        _ => None,
+    }
+}
+spec fn rel_e(pe: ParserExpression, e: Expression) -> bool decreases pe {
+    match pe.kind {
+        sylt_parser::ExpressionKind::Get(a) => rel_a(a, e),
+        sylt_parser::ExpressionKind::Add(x, y) | sylt_parser::ExpressionKind::Sub(x, y) | sylt_parser::ExpressionKind::Mul(x, y)
+        | sylt_parser::ExpressionKind::Div(x, y) | sylt_parser::ExpressionKind::AssertEq(x, y) | sylt_parser::ExpressionKind::And(x, y)
+        | sylt_parser::ExpressionKind::Or(x, y) =>
+            e is BinOp && Some(e->BinOp_op) == binop_of(pe.kind) && rel_e(*x, *e->BinOp_a) && rel_e(*y, *e->BinOp_b),
+        sylt_parser::ExpressionKind::Comparison(x, _, y) =>
+            e is BinOp && Some(e->BinOp_op) == binop_of(pe.kind) && rel_e(*x, *e->BinOp_a) && rel_e(*y, *e->BinOp_b),
+        sylt_parser::ExpressionKind::Neg(x) => e is UniOp && e->UniOp_op is Neg && rel_e(*x, *e->UniOp_a),
+        sylt_parser::ExpressionKind::Not(x) => e is UniOp && e->UniOp_op is Not && rel_e(*x, *e->UniOp_a),
+        sylt_parser::ExpressionKind::Parenthesis(x) => rel_e(*x, e),
+        sylt_parser::ExpressionKind::If(branches) => e is If && e->If_branches@.len() == branches@.len()
+            && forall|i: int| 0 <= i < branches@.len() ==> rel_ib(#[trigger] branches@[i], e->If_branches@[i]),
+        sylt_parser::ExpressionKind::Case { to_match, branches, fall_through } => e is Case && rel_e(*to_match, *e->Case_to_match)
+            && e->Case_branches@.len() == branches@.len() && (fall_through is Some <==> e->Case_fall_through is Some),
+        sylt_parser::ExpressionKind::Function { params, pure, .. } => e is Function && e->Function_pure == pure && e->Function_params@.len() == params@.len(),
+        sylt_parser::ExpressionKind::Blob { fields, .. } => e is Blob && e->Blob_fields@.len() == fields@.len()
+            && forall|i: int| 0 <= i < fields@.len() ==> (#[trigger] e->Blob_fields@[i]).0 == fields@[i].0 && rel_e(fields@[i].1, e->Blob_fields@[i].1),
+        sylt_parser::ExpressionKind::Tuple(xs) => e is Collection && e->Collection_collection is Tuple && e->Collection_values@.len() == xs@.len()
+            && forall|i: int| 0 <= i < xs@.len() ==> rel_e(#[trigger] xs@[i], e->Collection_values@[i]),
+        sylt_parser::ExpressionKind::List(xs) => e is Collection && e->Collection_collection is List && e->Collection_values@.len() == xs@.len()
+            && forall|i: int| 0 <= i < xs@.len() ==> rel_e(#[trigger] xs@[i], e->Collection_values@[i]),
+        sylt_parser::ExpressionKind::Float(f) => e is Float && e->Float_0 == f,
+        sylt_parser::ExpressionKind::Int(i) => e is Int && e->Int_0 == i,
+        sylt_parser::ExpressionKind::Str(st) => e is Str && e->Str_0 == st,
+        sylt_parser::ExpressionKind::Bool(b) => e is Bool && e->Bool_0 == b,
+        sylt_parser::ExpressionKind::Nil => e is Nil,
+    }
+}
+spec fn rel_ib(pb: ParserIfBranch, b: IfBranch) -> bool decreases pb {
+    match pb.condition { Some(c) => b.condition is Some && rel_e(c, b.condition->Some_0), None => b.condition is None }
+}
+spec fn rel_a(a: ParserAssignable, e: Expression) -> bool decreases a {
+    match a.kind {
+        sylt_parser::AssignableKind::Read(_) => e is Read,
+        sylt_parser::AssignableKind::Variant { variant, value, .. } => e is Variant && e->Variant_variant == variant.name && rel_e(*value, *e->Variant_value),
+        sylt_parser::AssignableKind::Call(f, args) => e is Call && rel_a(*f, *e->Call_function) && e->Call_args@.len() == args@.len()
+            && forall|i: int| 0 <= i < args@.len() ==> rel_e(#[trigger] args@[i], e->Call_args@[i]),
+        // `x -> f(args)` IS the call `f(x, args)`
+        sylt_parser::AssignableKind::ArrowCall(x, f, args) => e is Call && rel_a(*f, *e->Call_function) && e->Call_args@.len() == args@.len() + 1
+            && rel_e(*x, e->Call_args@[0])
+            && forall|i: int| 0 <= i < args@.len() ==> rel_e(#[trigger] args@[i], e->Call_args@[i + 1]),
+        sylt_parser::AssignableKind::Access(a2, ident) => e is Read || (e is BlobAccess && e->BlobAccess_field == ident.name && rel_a(*a2, *e->BlobAccess_value)),
+        sylt_parser::AssignableKind::Index(a2, idx) => e is Index && rel_a(*a2, *e->Index_value) && rel_e(*idx, *e->Index_index),
+        sylt_parser::AssignableKind::Expression(x) => rel_e(*x, e),
+    }
+}
+
 impl Resolver {
     /// the global table, as far as the functions under contract are concerned (lookup_global is
     /// outside: it indexes two HashMaps keyed by placeholder types)
@@ -291,15 +365,19 @@ impl Resolver {
             r is Ok && assignable.kind is Access && old(self).ns_of(assignable.span.file_id, *assignable.kind->Access_0) is Some ==>
                 r->Ok_0 is Read && old(self).global_of(old(self).ns_of(assignable.span.file_id, *assignable.kind->Access_0)->Some_0, assignable.kind->Access_1.name@)
                     == Some(Name::Name(r->Ok_0->Read_var)), //# C09 assignable.qualified_name_is_the_module_global_never_a_local
+            r is Ok ==> rel_a(*assignable, r->Ok_0), //# C14 assignable.result_is_the_desugared_tree
 //@   endspec
 //@   ghost entry
         broadcast use group_up;
 //@   endghost
-//@   loop 1
+//@   loop 1 binder it1
                 invariant self.stack@ == old(self).stack@, self.frame(old(self)),
                     old(self).stack@.len() > 0 ==> forall|i: int| 0 <= i < args@.len() ==> e_nodecl(#[trigger] args@[i]),
                     self.inv(), e_up(*function, self.variables@.len() as int), forall|i: int| 0 <= i < args@.len() ==> e_up(#[trigger] args@[i], self.variables@.len() as int),
                     forall|i: int| 0 <= i < args@.len() ==> e_shape(#[trigger] args@[i]),
+                    it1.seq().len() == parser_args@.len(), args@.len() == it1.index@,
+                    forall|k: int| 0 <= k < parser_args@.len() ==> *(#[trigger] it1.seq()[k]) == parser_args@[k],
+                    forall|k: int| 0 <= k < args@.len() ==> rel_e(#[trigger] parser_args@[k], args@[k]), //# C14 assignable.loop1.call_arguments_in_order
 //@   endloop
 //@   loop 2 binder it2
                 invariant self.stack@ == old(self).stack@, self.frame(old(self)),
@@ -307,7 +385,14 @@ impl Resolver {
                     old(self).stack@.len() > 0 ==> forall|i: int| 0 <= i < args@.len() ==> e_nodecl(#[trigger] args@[i]),
                     self.inv(), e_up(*function, self.variables@.len() as int), forall|i: int| 0 <= i < args@.len() ==> e_up(#[trigger] args@[i], self.variables@.len() as int),
                     forall|i: int| 0 <= i < args@.len() ==> e_shape(#[trigger] args@[i]),
+                    forall|k: int| 0 <= k < parser_args@.len() ==> *(#[trigger] it2.seq()[k]) == parser_args@[k],
+                    rel_e(xp, args@[0]),
+                    forall|k: int| 0 <= k < it2.index@ ==> rel_e(#[trigger] parser_args@[k], args@[k + 1]), //# C14 assignable.loop2.arrow_call_arguments_follow_the_receiver
 //@   endloop
+//@   ghost before
+//@| let extra_arg = self.expression(extra_arg)?;
+                let ghost xp: ParserExpression = **extra_arg;
+//@   endghost
 //@ end
 
 //@ fn sylt-compiler/src/name_resolution.rs collection
@@ -330,15 +415,20 @@ impl Resolver {
             final(self).inv(), //# C07 collection.keeps_ids_in_range
             r is Ok ==> e_up(r->Ok_0, final(self).variables@.len() as int), //# C07,C09 collection.result_ids_in_range
             r is Ok ==> e_shape(r->Ok_0), //# C07 collection.result_shape
+            r is Ok ==> r->Ok_0 is Collection && r->Ok_0->Collection_collection == collection && r->Ok_0->Collection_values@.len() == expr@.len()
+                && forall|i: int| 0 <= i < expr@.len() ==> rel_e(#[trigger] expr@[i], r->Ok_0->Collection_values@[i]), //# C14 collection.members_in_order
 //@   endspec
 //@   ghost entry
         broadcast use group_up;
 //@   endghost
-//@   loop 1
+//@   loop 1 binder it
             invariant self.stack@ == old(self).stack@, self.frame(old(self)),
                 old(self).stack@.len() > 0 ==> forall|i: int| 0 <= i < values@.len() ==> e_nodecl(#[trigger] values@[i]),
                 self.inv(), forall|i: int| 0 <= i < values@.len() ==> e_up(#[trigger] values@[i], self.variables@.len() as int),
                 forall|i: int| 0 <= i < values@.len() ==> e_shape(#[trigger] values@[i]),
+                it.seq().len() == expr@.len(), values@.len() == it.index@,
+                forall|k: int| 0 <= k < expr@.len() ==> *(#[trigger] it.seq()[k]) == expr@[k],
+                forall|k: int| 0 <= k < values@.len() ==> rel_e(#[trigger] expr@[k], values@[k]), //# C14 collection.loop.members_in_order
 //@   endloop
 //@ end
 
@@ -361,6 +451,7 @@ impl Resolver {
             final(self).inv(), //# C07 binop.keeps_ids_in_range
             r is Ok ==> e_up(r->Ok_0, final(self).variables@.len() as int), //# C07,C09 binop.result_ids_in_range
             r is Ok ==> e_shape(r->Ok_0), //# C07 binop.result_shape
+            r is Ok ==> r->Ok_0 is BinOp && r->Ok_0->BinOp_op == op && rel_e(*a, *r->Ok_0->BinOp_a) && rel_e(*b, *r->Ok_0->BinOp_b), //# C14 binop.result_shape_of_operands
 //@   endspec
 //@   ghost entry
         broadcast use group_up;
@@ -386,6 +477,7 @@ impl Resolver {
             final(self).inv(), //# C07 uniop.keeps_ids_in_range
             r is Ok ==> e_up(r->Ok_0, final(self).variables@.len() as int), //# C07,C09 uniop.result_ids_in_range
             r is Ok ==> e_shape(r->Ok_0), //# C07 uniop.result_shape
+            r is Ok ==> r->Ok_0 is UniOp && r->Ok_0->UniOp_op == op && rel_e(*a, *r->Ok_0->UniOp_a), //# C14 uniop.result_shape_of_operand
 //@   endspec
 //@   ghost entry
         broadcast use group_up;
@@ -411,6 +503,7 @@ impl Resolver {
             final(self).inv(), //# C07 if_branch.keeps_ids_in_range
             r is Ok ==> ib_up(r->Ok_0, final(self).variables@.len() as int), //# C07,C09 if_branch.result_ids_in_range
             r is Ok ==> ib_shape(r->Ok_0), //# C07 if_branch.result_shape
+            r is Ok ==> rel_ib(*branch, r->Ok_0), //# C14 if_branch.condition_shape
 //@   endspec
 //@   ghost entry
         broadcast use group_up;
@@ -515,6 +608,7 @@ impl Resolver {
             r is Ok ==> e_up(r->Ok_0, final(self).variables@.len() as int), //# C07,C09 expression.result_ids_in_range
             r is Ok ==> e_shape(r->Ok_0), //# C07 expression.result_shape
             r is Ok && expr.kind is Int ==> r->Ok_0 is Int, //# C07 expression.int_literal_stays_int_literal
+            r is Ok ==> rel_e(*expr, r->Ok_0), //# C14 expression.result_is_the_desugared_tree
 //@   endspec
 //@   ghost entry
         broadcast use group_up;
@@ -525,24 +619,31 @@ impl Resolver {
                         self.inv(), forall|i: int| 0 <= i < branches@.len() ==> ib_up(#[trigger] branches@[i], self.variables@.len() as int),
                         forall|i: int| 0 <= i < branches@.len() ==> ib_shape(#[trigger] branches@[i]),
                         itb.seq().len() == parser_branches@.len(), branches@.len() == itb.index@,
+                        forall|k: int| 0 <= k < parser_branches@.len() ==> *(#[trigger] itb.seq()[k]) == parser_branches@[k],
+                        forall|k: int| 0 <= k < branches@.len() ==> rel_ib(#[trigger] parser_branches@[k], branches@[k]), //# C14 expression.loop1.if_branches_in_order
 //@   endloop
-//@   loop 2
+//@   loop 2 binder itc
                     invariant self.stack@ == old(self).stack@, self.frame(old(self)),
                         old(self).stack@.len() > 0 ==> forall|i: int| 0 <= i < branches@.len() ==> cb_nodecl(#[trigger] branches@[i]),
                         self.inv(), e_up(*to_match, self.variables@.len() as int), forall|i: int| 0 <= i < branches@.len() ==> cb_up(#[trigger] branches@[i], self.variables@.len() as int),
                         forall|i: int| 0 <= i < branches@.len() ==> cb_shape(#[trigger] branches@[i]),
+                        itc.seq().len() == parser_branches@.len(), branches@.len() == itc.index@,
 //@   endloop
-//@   loop 3
+//@   loop 3 binder itp
                     invariant is_prefix(old(self).stack@, self.stack@), self.frame(old(self)), ss == old(self).stack@.len(),
                         params_const(params@, self.variables@), //# C04 expression.loop.parameters_are_constants
                         self.stack@.len() == ss + params@.len(),
                         self.inv(),
+                        itp.seq().len() == parser_params@.len(), params@.len() == itp.index@,
 //@   endloop
-//@   loop 4
+//@   loop 4 binder itf
                     invariant self.stack@ == old(self).stack@, self.frame(old(self)),
                         old(self).stack@.len() > 0 ==> fields_nodecl(fields@),
                         self.inv(), (blob as int) < self.variables@.len(), (self_var as int) < self.variables@.len(), fields_up(fields@, self.variables@.len() as int),
                         forall|i: int| 0 <= i < fields@.len() ==> e_shape((#[trigger] fields@[i]).1),
+                        itf.seq().len() == parser_fields@.len(), fields@.len() == itf.index@,
+                        forall|k: int| 0 <= k < parser_fields@.len() ==> *(#[trigger] itf.seq()[k]) == parser_fields@[k],
+                        forall|k: int| 0 <= k < fields@.len() ==> (#[trigger] fields@[k]).0 == parser_fields@[k].0 && rel_e(parser_fields@[k].1, fields@[k].1), //# C14 expression.loop4.blob_fields_in_order
 //@   endloop
 //@ end
 
